@@ -8,10 +8,11 @@
     five recorded classes were repaired in /repo (d88c1da, 031a721, bb69bb9, 2f36fc5) and every
     theorem below is unconditional.  [rocfl_read_pos] / [validator_read_pos] are the HISTORICAL
     readers and occur only in the `C10_before_fix_...` notes.
-    [KnownC10.c10_foreign_escaped_version_name] is not a defect class of C10: it names the
-    tokens (an escaped spelling of head / a version key, which rocfl never writes) on which the
-    main reader still differs from a conforming decoder. *)
-From Rocfl Require Import Base.Bytes Model.VersionNum Model.Json Model.KnownC10 Generated.Consts
+    [escaped_version_name_token] is not a defect class of C10: it names the tokens (an escaped
+    spelling of head / a version key, which rocfl never writes) on which the main reader still
+    differs from a conforming decoder; it appears as a hypothesis of the theorems about
+    inventories written by other software. *)
+From Rocfl Require Import Base.Bytes Model.VersionNum Model.Json Generated.Consts
   Proofs.JsonFacts Proofs.JsonPathFacts Proofs.JsonPosFacts.
 Open Scope N_scope.
 
@@ -81,7 +82,7 @@ Print Assumptions C10_validator_reader_is_conforming.
 (** ... the main reader is the conforming decoder followed by the position's visitor at every
     position except head and the version keys (VersionNum, #[serde(try_from = "&str")]) ... *)
 Theorem C10_main_reader_is_conforming : forall p t,
-  c10_foreign_escaped_version_name p t = false ->
+  escaped_version_name_token p t = false ->
   main_read_pos p t = match decode_string t with Some s => post_visit p s | None => None end.
 Proof. exact main_read_conforming. Qed.
 Print Assumptions C10_main_reader_is_conforming.
@@ -94,14 +95,14 @@ Print Assumptions C10_main_reader_is_conforming_outside_versions.
 
 (** ... where an escaped spelling is refused; rocfl never writes one (a version name has no
     byte serde_json escapes), so this only concerns inventories written by other software *)
-Theorem C10_foreign_escaped_version_name_refused : forall p t,
-  c10_foreign_escaped_version_name p t = true -> main_read_pos p t = None.
-Proof. exact main_read_foreign_escaped_version_refused. Qed.
-Print Assumptions C10_foreign_escaped_version_name_refused.
+Theorem C10_escaped_version_name_refused_by_main_reader : forall p t,
+  escaped_version_name_token p t = true -> main_read_pos p t = None.
+Proof. exact main_read_escaped_version_name_refused. Qed.
+Print Assumptions C10_escaped_version_name_refused_by_main_reader.
 
 Theorem C10_rocfl_never_writes_escaped_version_name : forall p s,
-  pos_value_ok p s = true -> c10_foreign_escaped_version_name p (serde_escape s) = false.
-Proof. exact written_token_not_foreign_class. Qed.
+  pos_value_ok p s = true -> escaped_version_name_token p (serde_escape s) = false.
+Proof. exact written_token_not_escaped_version_name. Qed.
 Print Assumptions C10_rocfl_never_writes_escaped_version_name.
 
 (** ** accepted operations never wedge the object (no exception any more) *)
@@ -263,12 +264,12 @@ Example C10_nonvacuous_positions :
   val_read_pos PId (serde_escape (bs [97; 34; 98])) = Some (bs [97; 34; 98]) /\
   validator_read_pos PId (serde_escape (bs [97; 34; 98])) = None /\
   (* head / version keys: what rocfl writes is read; the escaped spelling "v" backslash "u0031" (other software) is
-     refused by the main reader only; the hypothesis of C10_foreign_escaped_version_name_refused is satisfiable *)
+     refused by the main reader only; the hypothesis of C10_escaped_version_name_refused_by_main_reader is satisfiable *)
   pos_value_ok PHead (b "v1") = true /\ pos_value_ok PVersionKey (b "v0012") = true /\
   main_read_pos PHead (serde_escape (b "v1")) = Some (b "v1") /\
   main_read_pos PVersionKey (serde_escape (b "v0012")) = Some (b "v0012") /\
   decode_string (bs [34; 118; 92; 117; 48; 48; 51; 49; 34]) = Some (b "v1") /\
-  c10_foreign_escaped_version_name PHead (bs [34; 118; 92; 117; 48; 48; 51; 49; 34]) = true /\
+  escaped_version_name_token PHead (bs [34; 118; 92; 117; 48; 48; 51; 49; 34]) = true /\
   main_read_pos PHead (bs [34; 118; 92; 117; 48; 48; 51; 49; 34]) = None /\
   val_read_pos PHead (bs [34; 118; 92; 117; 48; 48; 51; 49; 34]) = Some (b "v1") /\
   (* an escaped spelling elsewhere (a logical path written a backslash u0041) is read by the main reader *)
